@@ -132,6 +132,11 @@ type client struct {
 	steer        bool
 	steerDone    bool
 	rstLate      bool
+	crossFin     bool // the client's FIN crosses the listener's: it does not acknowledge that FIN
+	ackFinFirst  bool // the client acknowledges the listener's FIN with a bare ACK before sending its own
+	finWithData  bool // the FIN rides on the last data segment
+	srvFinSeen   bool
+	ackedSrvFin  bool
 }
 
 var me = [4]byte{127, 0, 0, 1}
@@ -209,14 +214,26 @@ func (c *client) next() *Seg {
 			if c.pshLast && c.idx == len(c.segs)-1 {
 				fl |= fPSH
 			}
+			if c.finWithData && c.idx == len(c.segs)-1 {
+				fl |= fFIN
+			}
 			s := c.seg(fl, p)
 			c.sent += uint32(len(p))
 			c.idx++
+			if fl&fFIN != 0 {
+				c.finSent = true
+				c.phase = 4
+			}
 			return &s
 		}
 		c.phase = 3
 		fallthrough
 	case 3:
+		if c.ackFinFirst && c.srvFinSeen && !c.ackedSrvFin {
+			c.ackedSrvFin = true
+			s := c.seg(fACK, nil)
+			return &s
+		}
 		c.phase = 4
 		s := c.seg(fFIN|fACK, nil)
 		c.finSent = true
@@ -246,7 +263,7 @@ func parseOut(fr []byte) (flags int, seq, ack uint32, ipid int, ok bool) {
 	return int(fr[47]), binary.BigEndian.Uint32(fr[38:42]), binary.BigEndian.Uint32(fr[42:46]), int(binary.BigEndian.Uint16(fr[18:20])), true
 }
 
-var removed, removedWhileOthersActive, steered int
+var removed, removedWhileOthersActive, steered, samePortPairs int
 
 // the 16-bit one's-complement sum of the ACK the listener will send for a data segment of
 // length L needs two carries when folded (a single fold leaves a value above 0xffff)
@@ -287,10 +304,26 @@ func runCase(r *hx.Rand, nconn int, tier string) ([]Step, string) {
 		if c.sport == 22 {
 			c.sport = 2200
 		}
+		samePorts := false
+		if i > 0 && r.Chance(1, 3) { // another peer using exactly the port pair of an earlier connection
+			o := clients[r.Intn(len(clients))]
+			c.sport, c.dport = o.sport, o.dport
+			for dup := true; dup; { // a peer of its own: no earlier connection has this 4-tuple
+				c.sip = [4]byte{10, 0, byte(r.Range(0, 3)), byte(r.Range(1, 250))}
+				dup = false
+				for _, e := range clients {
+					if e.sip == c.sip {
+						dup = true
+					}
+				}
+			}
+			samePorts = true
+			samePortPairs++
+		}
 		// never let a port value of one connection equal a port value of another on the same peer:
 		// StateTable.Get would confuse them (recorded separately)
 		key := fmt.Sprintf("%v", c.sip)
-		for usedTuple[key+strconv.Itoa(c.sport)] || usedTuple[key+strconv.Itoa(c.dport)] || c.sport == c.dport {
+		for !samePorts && (usedTuple[key+strconv.Itoa(c.sport)] || usedTuple[key+strconv.Itoa(c.dport)] || c.sport == c.dport) {
 			c.sport = r.Range(1024, 65535)
 			c.dport = []int{5555, 8081, 31337, 2222, 7777, 9999}[r.Intn(6)]
 		}
@@ -333,6 +366,9 @@ func runCase(r *hx.Rand, nconn int, tier string) ([]Step, string) {
 		c.badAck = r.Chance(1, 15)
 		c.rstEarly = r.Chance(1, 20)
 		c.rstLate = r.Chance(1, 2)
+		c.crossFin = r.Chance(1, 3)
+		c.ackFinFirst = !c.crossFin && r.Chance(1, 2)
+		c.finWithData = r.Chance(1, 4)
 		c.steer = r.Chance(1, 2)
 		if c.steer {
 			var all []byte
@@ -440,8 +476,9 @@ func runCase(r *hx.Rand, nconn int, tier string) ([]Step, string) {
 				st.Fresh = [3]uint{c.key, uint(seq - 1), uint(ipid)}
 				c.srvSeq = seq + 1
 			}
-			if fl&fFIN != 0 {
+			if fl&fFIN != 0 && !c.crossFin {
 				c.srvSeq = seq + 1
+				c.srvFinSeen = true
 			}
 		}
 		if s.Flags&fSYN != 0 && st.Fresh[0] == 0 {
@@ -458,8 +495,9 @@ func runCase(r *hx.Rand, nconn int, tier string) ([]Step, string) {
 			rs := Step{Kind: "reader", Key: c.key}
 			for _, f := range readerFrames {
 				rs.Frames = append(rs.Frames, hx.B(f))
-				if fl, seq, _, _, ok := parseOut(f); ok && fl&fFIN != 0 {
+				if fl, seq, _, _, ok := parseOut(f); ok && fl&fFIN != 0 && !c.crossFin {
 					c.srvSeq = seq + 1
+					c.srvFinSeen = true
 				}
 			}
 			e := evs[0]
@@ -683,5 +721,6 @@ func main() {
 	dist["checksum-steered-segments"] = steered
 	dist["state-removed"] = removed
 	dist["state-removed-while-others-active"] = removedWhileOthersActive
+	dist["peers-sharing-a-port-pair"] = samePortPairs
 	hx.Write(o, "C14", "tcp", "From HT Require Import Common.Bytes C14.Model C14.Check.", "case", cases, dist, nil, 40)
 }
